@@ -168,6 +168,20 @@ func runC01(c *explore.Ctx) {
 			return !c.Expired()
 		})
 	}
+	// NORMS: the same batches under norms with unusual float32 bit patterns (>= 2, huge, maximal,
+	// denormal, minimal): ice treats the norm as an opaque strictly positive float32
+	for _, nm := range model.NormModes() {
+		nm := nm
+		scope := fmt.Sprintf("MIX(5,2)/norms%d", nm)
+		model.WithNormMode(nm, func() {
+			gen.Mix(5, 2, "m", func(idx int64, batch []gen.Doc, kinds []int) bool {
+				if c.MineIdx(scope, idx) {
+					checkBuilt(c, "C01", scope, idx, batch, 1025, c01Comps)
+				}
+				return !c.Expired()
+			})
+		})
+	}
 	for _, m := range []uint32{1, 1025} {
 		m := m
 		scope := fmt.Sprintf("TERM(%d,3)/%d", termN, m)
